@@ -5,6 +5,7 @@ import (
 	"cmp"
 	"encoding/json"
 	"fmt"
+	"maps"
 	"slices"
 	"sort"
 	"strings"
@@ -267,7 +268,8 @@ func addGroup(g *nsxGroup) []change {
 func findGroupOnDevice(gb *nsxGroup, ma map[string]*nsxGroup) *nsxGroup {
 	bAddr := gb.Expression[0].IPAddresses
 GROUP:
-	for _, ga := range ma {
+	for _, id := range slices.Sorted(maps.Keys(ma)) {
+		ga := ma[id]
 		aAddr := ga.Expression[0].IPAddresses
 		// Check if group already referenced by other group.
 		if ga.needed {
